@@ -787,9 +787,9 @@ class CFG:
         def binds(n):
             if n.kind == 'stmt' and isinstance(n.ast, (ast.Assign, ast.AugAssign, ast.AnnAssign)):
                 for t in (n.ast.targets if isinstance(n.ast, ast.Assign) else [n.ast.target]):
-                    if norm(t) == name or (isinstance(t, (ast.Tuple, ast.List)) and any(norm(e) == name for e in ast.walk(t) if isinstance(e, (ast.Name, ast.Attribute)))):
+                    if norm(t) == name or (isinstance(t, (ast.Tuple, ast.List)) and any(norm(e) == name for e in ast.walk(t) if isinstance(e, (ast.Name, ast.Attribute)) and isinstance(e.ctx, ast.Store))):
                         return True
-            if n.kind == 'for' and any(isinstance(e, ast.Name) and e.id == name for e in ast.walk(n.ast.target)):
+            if n.kind == 'for' and any(isinstance(e, ast.Name) and e.id == name and isinstance(e.ctx, ast.Store) for e in ast.walk(n.ast.target)):
                 return True
             return False
         defs = [n for n in self.nodes if binds(n)]
